@@ -18,6 +18,17 @@
 #include <float.h>
 #include <math.h>
 
+// The mean of values lies within [min, max]; rounding may leave it just outside.
+static inline double mean_clamp(double mean, double v_min, double v_max) {
+    if (mean < v_min) {
+        return v_min;
+    }
+    if (mean > v_max) {
+        return v_max;
+    }
+    return mean;
+}
+
 void jls_statistics_reset(struct jls_statistics_s *s) {
     s->k = 0;
     s->mean = 0.0;
@@ -53,7 +64,7 @@ void jls_statistics_compute_f32(struct jls_statistics_s * s, const float * x, ui
             v_max = v;
         }
     }
-    v_mean /= length;
+    v_mean = mean_clamp(v_mean / length, v_min, v_max);
     double m;
     for (uint64_t i = 0; i < length; ++i) {
         m = x[i] - v_mean;
@@ -86,7 +97,7 @@ void jls_statistics_compute_f64(struct jls_statistics_s * s, const double * x, u
             v_max = v;
         }
     }
-    v_mean /= length;
+    v_mean = mean_clamp(v_mean / length, v_min, v_max);
     double m;
     for (uint64_t i = 0; i < length; ++i) {
         m = x[i] - v_mean;
@@ -113,6 +124,7 @@ void jls_statistics_add(struct jls_statistics_s *s, double x) {
     if (x > s->max) {
         s->max = x;
     }
+    s->mean = mean_clamp(s->mean, s->min, s->max);
 }
 
 double jls_statistics_var(struct jls_statistics_s *s) {
@@ -152,9 +164,9 @@ void jls_statistics_combine(struct jls_statistics_s *tgt,
         m2_diff = b->mean - mean_new;
         tgt->s = (a->s + a->k * m1_diff * m1_diff) +
                  (b->s + b->k * m2_diff * m2_diff);
-        tgt->mean = mean_new;
         tgt->min = (a->min < b->min) ? a->min : b->min;
         tgt->max = (a->max > b->max) ? a->max : b->max;
+        tgt->mean = mean_clamp(mean_new, tgt->min, tgt->max);
         tgt->k = kt;
     }
 }
